@@ -250,16 +250,17 @@ def make_interp(p):
     it = Interp()
     it.invariants = INVARIANTS
     it.contracts = CONTRACTS
-    it.models.update(EXTRA_MODELS)
-    it.models.update(getattr(p.cls, 'models', {}))      # models that apply to this proof only
     it.modular = set(p.modular)
     it.unroll_limit = p.unroll_limit
     _install_spec_models(it)
     _install_rec_specs(it)
-    from . import regex, stdmodels, segs
+    from . import regex, stdmodels, segs, aio
     segs.install(it)
+    aio.install(it)
     regex.install(it)
     stdmodels.install(it)
+    it.models.update(EXTRA_MODELS)                      # contract-file models override the engine defaults
+    it.models.update(getattr(p.cls, 'models', {}))      # models that apply to this proof only
     return it
 
 
@@ -290,7 +291,7 @@ def generate(p):
             # vacuity: the precondition must be satisfiable
             ob = Obligation(f"{p.full}::cover[requires]", st.pc, None, 'cover', inputs=interp.inputs)
             interp.obligations.append(ob)
-            for s1, r in interp.call(st, lift(p.run), [], dict(vals)):
+            for s1, r in _run_to_completion(interp, st, p, vals):
                 run.paths += 1
                 if len(run.path_pcs) < 400:
                     run.path_pcs.append(list(s1.pc))
@@ -331,6 +332,15 @@ def generate(p):
     run.gen_time = time.time() - t0
     run.stats = interp.stats
     return run
+
+
+def _run_to_completion(interp, st, p, vals):
+    """call the harness; an `async def` harness returns a coroutine object which is run like asyncio.run would"""
+    for s1, r in interp.call(st, lift(p.run), [], dict(vals)):
+        if isinstance(r, VCoro):
+            yield from interp.bm.do_await(interp, s1, r)
+        else:
+            yield s1, r
 
 
 def _subset(fn, vals):
